@@ -428,7 +428,7 @@ def run(chk, tier):
             declared = vals == {"1"}
         needs = any(pc is not None and open_infix(pc) for pc, _ in forms)
         if needs and not declared:
-            if guards:
+            if guards or any(sh_ == {(("T",), "wrapped"), (("F",), "plain")} for sh_ in slot_shapes.values()):
                 chk.bad("R20.7", "compound|%s" % bname, "%s prints `(operand) operator ...` with no delimiter of its own but does not declare itself compound: a postfix after it regroups" % bname, "extensions/to_sql/src/traits.rs")
             # without any guard the slot violations above already describe the defect
         elif needs:
